@@ -1,0 +1,23 @@
+//go:build verif
+
+// Verification contracts for the operator's metadata snapshot merge (property C21; comment-only, read by /verif/govc).
+// This file contains no executable code.
+
+package operator
+
+// topicsOK: every topic entry carries a name pointer (what BuildClusterMetadata and the JSON codec produce).
+//@ spec func topicsOK(ts []protocol.MetadataTopic) bool = forall i int :: 0 <= i && i < len(ts) ==> ts[i].Topic != nil
+//@ spec func live(t protocol.MetadataTopic) bool = *t.Topic != "" && t.ErrorCode == 0
+
+//@ func mergeSnapshots
+//@   requires topicsOK(next.Topics) && topicsOK(existing.Topics)
+//@   requires cap(next.Topics) > 0 ==> base(next.Topics) != base(existing.Topics)
+//@   ensures [C21.merge_keeps_every_resource_topic_and_its_partition_count] len(result.Topics) >= old(len(next.Topics)) && forall i int :: 0 <= i && i < old(len(next.Topics)) ==> result.Topics[i].Topic == old(next.Topics[i].Topic) && len(result.Topics[i].Partitions) >= old(len(next.Topics[i].Partitions))
+//@   at mapupdate#1 before assert [C21.index_entry_points_at_topic_of_that_name] 0 <= value && value < len(next.Topics) && *next.Topics[value].Topic == key && key != ""
+//@   at loopstep#2 assert [C21.merge_iteration_never_leaves_existing_topic_with_fewer_partitions] declared(ok) && live(topic) ==> ite(ok, declared(i) && len(next.Topics[i].Partitions) >= len(topic.Partitions), len(next.Topics) >= 1 && next.Topics[len(next.Topics)-1].Topic == topic.Topic && len(next.Topics[len(next.Topics)-1].Partitions) == len(topic.Partitions))
+//@   at loopstep#2 assert [C21.merge_considers_every_live_topic] live(topic) ==> declared(ok)
+//@   loop 1 invariant -1 <= rangeindex && rangeindex < len(next.Topics) && seen != nil
+//@   loop 2 invariant -1 <= rangeindex && rangeindex < len(existing.Topics) && seen != nil
+//@   loop 2 invariant len(next.Topics) >= old(len(next.Topics)) && (cap(next.Topics) > 0 ==> base(next.Topics) != base(existing.Topics))
+//@   loop 2 invariant forall i int :: 0 <= i && i < old(len(next.Topics)) ==> next.Topics[i].Topic == old(next.Topics[i].Topic) && len(next.Topics[i].Partitions) >= old(len(next.Topics[i].Partitions))
+//@   loop 2 invariant topicsOK(next.Topics) && topicsOK(existing.Topics)
